@@ -36,7 +36,8 @@ ASSUMPTIONS = {
           "methods they override (for the repo's own overrides this is proved)",
     "A6": "user attribute names do not start with '_' and do not shadow class attributes",
     "A7": "user callbacks do not mutate the graph; for functional properties they are deterministic functions of their arguments; the truth "
-          "value of a callback OBJECT is unconstrained (where the code tests `if f:` the specification says `given(f) = f is not None and bool(f)`)",
+          "value of a callback OBJECT is unconstrained, except that rfunc / sort / rvfunc / refunc / ff_result (tested by truth value in the "
+          "code, 'if given' in the statements) carry the explicit precondition `None or truthy`",
     "A8": "generators are consumed to exhaustion without interleaved mutation",
     "A9": "dict preserves insertion order; set iteration yields each element once in arbitrary order; uuid4().int is an "
           "arbitrary positive integer; list/tuple/dict built-ins behave as their Lean List counterparts (append=snoc, "
